@@ -360,18 +360,28 @@ def c01_b(ctx):
                       'rows = n_samples + batch_size',
                       'buffers have {} rows: the tail (<= batch_size rows) can overlap the kept '
                       'prefix'.format(show(first)[:80] if first else show(sh)[:80]), fn=f, node=n)
-        # discrepancy buffer initialised to +inf
-        inf_ok = False
+        # unfilled rows of the discrepancy buffer sort strictly after every simulated draw
+        ctx.fact('numpy sorts nan after +inf (all sort kinds); +inf placeholders tie with simulated '
+                 'draws whose discrepancy is +inf')
+        init = None
         for n in own_nodes(f.node):
             if isinstance(n, ast.Assign):
-                v = ex.term(n.value)
-                if contains(v, 'np.inf') and not contains(v, '-np.inf'):
-                    for (tt, pol, tast) in ctx.guards(f, n):
-                        if pol and contains(tt, 'self.discrepancy_name'):
-                            inf_ok = True
-        ctx.check(inf_ok, f, 'empty rows sort last', 'discrepancy buffer starts at +inf',
-                  'the discrepancy buffer is not initialised to +inf, unused rows can enter the '
-                  'prefix', fn=f, node=s)
+                for (tt, pol, tast) in ctx.guards(f, n):
+                    if pol and match(tt, pattern('_n == self.discrepancy_name')) is not None \
+                            and isinstance(n.targets[0], ast.Subscript):
+                        init = n
+        v = ex.term(init.value) if init is not None else None
+        is_nan = v is not None and (contains(v, 'np.nan') or contains(v, "float('nan')") or
+                                    contains(v, 'math.nan'))
+        is_inf = v is not None and contains(v, 'np.inf') and not contains(v, '-np.inf')
+        ctx.check(is_nan and not is_inf, f, 'unfilled rows sort after every simulated draw',
+                  'discrepancy buffer starts at nan',
+                  'the discrepancy buffer is initialised to {}: '.format(
+                      src(init.value)[:50] if init is not None else None) +
+                  ('unfilled rows tie with simulated draws of infinite discrepancy and can be '
+                   'returned in their place (uninitialised parameter values)' if is_inf else
+                   'unfilled rows can enter the returned prefix'), fn=f,
+                  node=init if init is not None else s)
 
 
 @obligation('C01-c', 'T6 T13', 'a draw is accepted iff discrepancy <= threshold', floor=2,
